@@ -95,20 +95,30 @@ Record pr_state := {
   ps_dead : list (Z * list pr_hash);    (* dead-node records: round -> hashes *)
   ps_ring : list Z;                     (* rounds of the finalized block summaries, latest first (c.BlockChain) *)
   ps_lfb : Z;                           (* round of the latest finalized block *)
-  ps_blocks : list pr_block             (* every finalized block (bookkeeping of the model) *)
+  ps_blocks : list pr_block;            (* the finalized chain, latest first (bookkeeping of the model) *)
+  ps_pruned : Z                         (* highest version PruneBelowVersion was called with (bookkeeping) *)
 }.
 
 Definition pr_init (lfb : Z) : pr_state :=
-  {| ps_db := []; ps_dead := []; ps_ring := []; ps_lfb := lfb; ps_blocks := [] |}.
+  {| ps_db := []; ps_dead := []; ps_ring := []; ps_lfb := lfb; ps_blocks := []; ps_pruned := lfb |}.
 
-(* finalizeBlock: SaveChanges writes the new nodes, RecordDeadNodes(deletes, fb.Round) puts the
-   record of that round, the summary enters the ring, the block becomes the LFB *)
+(* finalizeBlock: SaveChanges writes the new nodes, RecordDeadNodes(deletes, fb.Round) REPLACES
+   the record of that round (also when the round is finalized a second time after a roll back),
+   the summary enters the ring, the block becomes the LFB *)
 Definition pr_finalize (s : pr_state) (r : Z) (adds dels nodes : list pr_hash) : pr_state :=
   {| ps_db := adds ++ ps_db s;
      ps_dead := (r, dels) :: filter (fun rd => negb (Z.eqb (fst rd) r)) (ps_dead s);
      ps_ring := r :: ps_ring s;
      ps_lfb := r;
-     ps_blocks := {| pb_round := r; pb_nodes := nodes |} :: ps_blocks s |}.
+     ps_blocks := {| pb_round := r; pb_nodes := nodes |} :: ps_blocks s;
+     ps_pruned := ps_pruned s |}.
+
+(* finalizeRound recovering from an incorrectly finalized fork: the LFB goes back to the common
+   ancestor (round r0); node DB, dead-node records and the summary ring stay as they are *)
+Definition pr_rollback (s : pr_state) (r0 : Z) : pr_state :=
+  {| ps_db := ps_db s; ps_dead := ps_dead s; ps_ring := ps_ring s; ps_lfb := r0;
+     ps_blocks := filter (fun b => pb_round b <=? r0) (ps_blocks s);
+     ps_pruned := ps_pruned s |}.
 
 (* pruneClientState's choice: start count-1 summaries behind the LFB, walk back to a round
    that is a multiple of 100 (or the oldest summary there is); abandon when that is within
@@ -134,7 +144,8 @@ Definition pr_prune_below (s : pr_state) (v : Z) : pr_state :=
   let gone := flat_map (fun rd => if fst rd <? v then snd rd else []) (ps_dead s) in
   {| ps_db := pr_diff (ps_db s) gone;
      ps_dead := filter (fun rd => negb (fst rd <? v)) (ps_dead s);
-     ps_ring := ps_ring s; ps_lfb := ps_lfb s; ps_blocks := ps_blocks s |}.
+     ps_ring := ps_ring s; ps_lfb := ps_lfb s; ps_blocks := ps_blocks s;
+     ps_pruned := Z.max (ps_pruned s) v |}.
 
 Definition pr_prune (s : pr_state) (count : Z) : pr_state :=
   match pr_version s count with Some v => pr_prune_below s v | None => s end.
@@ -146,7 +157,8 @@ Definition pr_readable (s : pr_state) (b : pr_block) : bool := pr_subset (pb_nod
 
 Inductive pr_op :=
 | OpBlock (r : Z) (add_ids : list Z) (dels nodes : list pr_hash)   (* new nodes get origin r *)
-| OpPrune.
+| OpPrune
+| OpRollback (r0 : Z).
 
 Definition pr_adds (r : Z) (ids : list Z) : list pr_hash := map (fun i => (r, i)) ids.
 
@@ -154,12 +166,15 @@ Definition pr_apply (count : Z) (s : pr_state) (o : pr_op) : pr_state :=
   match o with
   | OpBlock r ids dels nodes => pr_finalize s r (pr_adds r ids) dels nodes
   | OpPrune => pr_prune s count
+  | OpRollback r0 => pr_rollback s r0
   end.
 Definition pr_run (count : Z) (s : pr_state) (ops : list pr_op) : pr_state := fold_left (pr_apply count) ops s.
 
-(* what the trie guarantees of every block (checked on the real trie by the engine): rounds
-   grow, every node of the new state was in the previous state or is new, nothing recorded
-   dead is part of the new state, and nothing recorded dead is younger than the block *)
+(* what the trie and the round protocol guarantee (checked on the real code by the engine):
+   rounds grow and no round that still has a dead-node record of an abandoned fork is skipped;
+   every node of the new state was in the previous state or is new, nothing recorded dead is part
+   of the new state or younger than the block; a roll back goes to a block of the chain that is
+   not below what was pruned *)
 Definition pr_prev_nodes (s : pr_state) : list pr_hash :=
   match ps_blocks s with b :: _ => pb_nodes b | [] => [] end.
 
@@ -167,10 +182,17 @@ Definition pr_op_ok (s : pr_state) (o : pr_op) : bool :=
   match o with
   | OpBlock r ids dels nodes =>
       (ps_lfb s <? r) &&
+      forallb (fun rd => (fst rd <=? ps_lfb s) || (r <=? fst rd)) (ps_dead s) &&
       forallb (fun h => pr_mem h (pr_prev_nodes s) || pr_mem h (pr_adds r ids)) nodes &&
       pr_disjoint dels nodes &&
       forallb (fun h => fst h <=? r) dels
   | OpPrune => true
+  | OpRollback r0 =>
+      (ps_pruned s <=? r0) && (r0 <=? ps_lfb s) &&
+      match filter (fun b => pb_round b <=? r0) (ps_blocks s) with
+      | b :: _ => pb_round b =? r0
+      | [] => true
+      end
   end.
 Fixpoint pr_ops_ok (count : Z) (s : pr_state) (ops : list pr_op) : bool :=
   match ops with
